@@ -52,13 +52,14 @@ structure Raw where
 def strA : Bytes := [65]
 def strAAAA : Bytes := [65, 65, 65, 65]
 
-/-- `(*LegacyRewrite).normalize` on a fresh entry (ASCII domain). -/
+/-- `(*LegacyRewrite).normalize` on a fresh entry (ASCII names).  Since the
+repair 3bb3ec2 the CNAME branch lower-cases the answer as well. -/
 def normalize (r : Raw) : Entry :=
   let d := lower r.domain
   if r.answer = strAAAA then ⟨d, r.answer, .AAAA, none⟩
   else if r.answer = strA then ⟨d, r.answer, .A, none⟩
   else match r.parsed with
-    | none => ⟨d, r.answer, .CNAME, none⟩
+    | none => ⟨d, lower r.answer, .CNAME, none⟩
     | some (is4, ip) => ⟨d, r.answer, if is4 then .A else .AAAA, some ip⟩
 
 /-- `prepareRewrites` -/
@@ -438,25 +439,29 @@ structure DnsObs where
 def ups4 : Bytes := [57, 46, 57, 46, 57, 46, 57]   -- "9.9.9.9"
 def ups6 : Bytes := [57, 58, 58, 57]               -- "9::9"
 
-def upstreamAnswer (name : Bytes) (qt : Nat) : List RR :=
-  if qt = qA then [⟨1, name, ups4⟩] else if qt = qAAAA then [⟨28, name, ups6⟩] else []
+/-- The recording upstream: with `rc = 0` one address record for A/AAAA
+questions (nothing for other types); with `rc ≠ 0` (NXDOMAIN, SERVFAIL,
+REFUSED) an empty reply with that rcode. -/
+def upstreamAnswer (name : Bytes) (qt : Nat) (rc : Nat) : List RR :=
+  if rc ≠ 0 then []
+  else if qt = qA then [⟨1, name, ups4⟩] else if qt = qAAAA then [⟨28, name, ups6⟩] else []
 
 /-- filterDNSRequest + processUpstream + processFilteringAfterResponse +
-getCNAMEWithIPs, given the result of `CheckHost`. -/
-def render (o : Out) (host : Bytes) (qt : Nat) : DnsObs :=
+getCNAMEWithIPs, given the result of `CheckHost` and the upstream's rcode. -/
+def render (o : Out) (host : Bytes) (qt : Nat) (rc : Nat) : DnsObs :=
   match dispatch o with
-  | .pass => ⟨[host], 0, host, upstreamAnswer host qt⟩
-  | .upstream c => ⟨[c], 0, host, ⟨5, host, c⟩ :: upstreamAnswer c qt⟩
+  | .pass => ⟨[host], rc, host, upstreamAnswer host qt rc⟩
+  | .upstream c => ⟨[c], rc, host, ⟨5, host, c⟩ :: upstreamAnswer c qt rc⟩
   | .answer c ips =>
     let owner := if c = [] then host else c
     let addrs := if qt = qA ∨ qt = qAAAA then ips.map (fun ip => (⟨qt, owner, ip⟩ : RR)) else []
     ⟨[], 0, host, (if c = [] then [] else [⟨5, host, c⟩]) ++ addrs⟩
 
-def respondWith (srt : Bytes → Sorter) (tbl : List Entry) (host : Bytes) (qt : Nat) : DnsObs :=
-  render (checkHostWith srt tbl host qt) host qt
+def respondWith (srt : Bytes → Sorter) (tbl : List Entry) (host : Bytes) (qt : Nat) (rc : Nat) : DnsObs :=
+  render (checkHostWith srt tbl host qt) host qt rc
 
-def respond (tbl : List Entry) (host : Bytes) (qt : Nat) : DnsObs :=
-  respondWith (fun _ => stable) tbl host qt
+def respond (tbl : List Entry) (host : Bytes) (qt : Nat) (rc : Nat) : DnsObs :=
+  respondWith (fun _ => stable) tbl host qt rc
 
 /-- True when some lookup the run can reach sorts more than 12 candidates, so
 that Go's `pdqsort` leaves insertion sort and tie order is unspecified. -/
